@@ -65,6 +65,39 @@ Lemma build_more_none : forall env depth o b r, build_more env depth o ((None, b
   PCase bo (bo + length (print_nodes b)) [] (build_list env (S depth) bo b) :: build_more env depth (bo + length (print_nodes b)) r.
 Proof. reflexivity. Qed.
 
+(* unfolding equations for the inline if *)
+Lemma wf_TIIf : forall names depth c t f, wf_node1 names depth (TIIf c t f) =
+  wf_expr names c && forallb inl_ok t && forallb (wf_node1 names (S depth)) t &&
+  match f with Some fl => forallb inl_ok fl && forallb (wf_node1 names (S depth)) fl | None => true end &&
+  N.leb (N.of_nat (length (print_node (TIIf c t f)))) 65535 && (ntags t + match f with Some fl => ntags fl | None => 0 end <=? 255).
+Proof. reflexivity. Qed.
+Lemma build_TIIf_some : forall env depth off c t fl, build env depth off (TIIf c t (Some fl)) =
+  let ts := off + 10 + length (print_expr c) + 8 in
+  let tl := length (print_nodes t) in
+  let fs := ts + tl + 9 in
+  [PIIf (mkI off (N.of_nat (length (print_node (TIIf c t (Some fl))))) (N.of_nat (ts - off)) (N.of_nat tl) (N.of_nat (fs - off))
+             (N.of_nat (length (print_nodes fl))) 0 (N.of_nat (ntags t)))
+        (qexpr_of env (off + 10) c) (build_list env (S depth) ts t ++ build_list env (S depth) fs fl)].
+Proof. reflexivity. Qed.
+Lemma build_TIIf_none : forall env depth off c t, build env depth off (TIIf c t None) =
+  let ts := off + 10 + length (print_expr c) + 8 in
+  let tl := length (print_nodes t) in
+  [PIIf (mkI off (N.of_nat (length (print_node (TIIf c t None)))) (N.of_nat (ts - off)) (N.of_nat tl) 0 0 0 0)
+        (qexpr_of env (off + 10) c) (build_list env (S depth) ts t)].
+Proof. reflexivity. Qed.
+
+(* unfolding equations for the super variable *)
+Lemma wf_TSVar : forall names depth p subs, wf_node1 names depth (TSVar p subs) =
+  wf_path p && no44 (print_path p) && fresh names p && negb (match subs with [] => true | _ => false end) &&
+  forallb sub_ok subs && forallb (wf_node1 names (S depth)) subs.
+Proof. reflexivity. Qed.
+Lemma build_TSVar : forall env depth off p subs, build env depth off (TSVar p subs) =
+  [PSVar off (off + length (print_node (TSVar p subs))) (mkV (off + 6) (N.of_nat (length (print_path p))) 0 0)
+         (build_subs env (S depth) (off + 6 + length (print_path p)) subs)].
+Proof. reflexivity. Qed.
+Lemma build_subs_cons : forall env d o x r, build_subs env d o (x :: r) = build env d (o + 2) x ++ build_subs env d (o + 2 + length (print_node x)) r.
+Proof. reflexivity. Qed.
+
 Section Sem.
   Variable auto : bool.
   Variable w : N.
@@ -638,6 +671,234 @@ Section Sem.
         rtag t (length pre) items = ROk (lit ++ ENode ctx x, length pre + length lit + length (print_node x), items') /\
         agree depth items items'.
 
+
+  (* ---- the phrase scan of a super variable = EscapeModel.svar_go ---- *)
+  Notation pscan := (phrase_scan jv get_key (jv_text auto w) (var_text_cfg auto w) (jv_math content root) content root).
+  Notation rsubf := (render_sub jv get_key (jv_text auto w) (var_text_cfg auto w) (jv_math content root) content root).
+  Notation vt := (var_text_cfg auto w).
+
+  Lemma svar_skip : forall outs k s pend, svar_go auto w outs s pend k = svar_go auto w outs (skipn k s) (rev (firstn k s) ++ pend) 0.
+  Proof.
+    intros outs k; induction k as [|k IH]; intros s pend; [reflexivity|].
+    destruct s as [|c t]; [reflexivity|]. cbn [svar_go skipn firstn rev]. rewrite IH. rewrite <- app_assoc. reflexivity.
+  Qed.
+
+  Lemma skipn_add : forall (l : list N) a b, skipn a (skipn b l) = skipn (b + a) l.
+  Proof.
+    intros l a b; revert l; induction b as [|b IH]; intros l; [reflexivity|]. destruct l as [|x l]; [rewrite skipn_nil; reflexivity|].
+    cbn [skipn Nat.add]. apply IH.
+  Qed.
+  Lemma skipn_nth : forall (l : list N) i, i < length l -> skipn i l = nth i l 0%N :: skipn (S i) l.
+  Proof.
+    intros l; induction l as [|x l IH]; intros i H; [cbn in H; lia|]. destruct i as [|i]; [reflexivity|].
+    cbn [skipn nth]. apply IH. cbn in H. lia.
+  Qed.
+  Lemma slice_snoc : forall (l : list N) a i, a <= i -> i < length l -> slice l a (S i) = slice l a i ++ [nth i l 0%N].
+  Proof.
+    intros l a i Ha Hi. unfold slice. replace (S i - a) with (S (i - a)) by lia.
+    assert (G : forall (m : list N) k, k < length m -> firstn (S k) m = firstn k m ++ [nth k m 0%N]).
+    { intros m; induction m as [|y m IHm]; intros k Hk; [cbn in Hk; lia|]. destruct k as [|k]; [reflexivity|].
+      cbn [firstn nth app]. f_equal. apply IHm. cbn in Hk. lia. }
+    rewrite G by (rewrite skipn_length; lia). f_equal. f_equal.
+    clear G. revert a i Ha Hi. induction l as [|y l IHl]; intros a i Ha Hi; [cbn in Hi; lia|].
+    destruct a as [|a]; [rewrite Nat.sub_0_r; reflexivity|]. destruct i as [|i]; [lia|]. cbn [skipn nth]. replace (S i - S a) with (i - a) by lia. apply IHl; cbn in Hi; lia.
+  Qed.
+  Lemma slice_past : forall (l : list N) a i, length l <= i -> slice l a i = slice l a (length l).
+  Proof.
+    intros l a i H. unfold slice. destruct (Nat.le_gt_cases (length l) a) as [Ha|Ha].
+    - rewrite skipn_all2 by lia. rewrite !firstn_nil. reflexivity.
+    - rewrite !firstn_all2; [reflexivity|rewrite skipn_length; lia|rewrite skipn_length; lia].
+  Qed.
+  Lemma slice_self : forall (l : list N) a, slice l a a = [].
+  Proof. intros. unfold slice. rewrite Nat.sub_diag. reflexivity. Qed.
+
+  Section Phrase.
+    Variable phrase : list N.
+    Variable tags : list tag.
+    Variable items : list (item jv).
+    Variable outs : list (list N).
+    Hypothesis Hlen : length outs = length tags.
+    Hypothesis Hsub : forall k t, nth_error tags k = Some t -> rsubf t items = ROk (nth k outs []).
+    Notation plen := (length phrase).
+    Notation SG := (svar_go auto w outs).
+
+    Lemma sg_end : forall j li, plen <= j -> SG (skipn j phrase) (rev (slice phrase li j)) 0 = vt (slice phrase li plen).
+    Proof. intros j li H. rewrite skipn_all2 by lia. cbn [svar_go]. rewrite rev_involutive. rewrite (slice_past phrase li j H). reflexivity. Qed.
+
+    Lemma pscan_eq : forall n index last acc fuel, plen - index <= n -> n < fuel -> last <= index ->
+      pscan fuel phrase tags items index last acc = ROk (acc ++ SG (skipn index phrase) (rev (slice phrase last index)) 0).
+    Proof.
+      intros n; induction n as [n IH] using lt_wf_ind; intros index last acc fuel Hn Hf Hl.
+      destruct fuel as [|f]; [lia|]. cbn [phrase_scan].
+      destruct (Nat.ltb_spec index plen) as [Hi|Hi].
+      2:{ rewrite sg_end by lia. reflexivity. }
+      rewrite (skipn_nth phrase index Hi). set (c := nth index phrase 0%N).
+      assert (Hstep : forall j, index < j -> forall last' acc', last' <= j ->
+                pscan f phrase tags items j last' acc' = ROk (acc' ++ SG (skipn j phrase) (rev (slice phrase last' j)) 0)).
+      { intros j Hj last' acc' Hl'. apply (IH (plen - j)); lia. }
+      destruct (N.eqb_spec c 123) as [Ec|Ec].
+      - (* an opening brace *)
+        cbn [svar_go]. unfold ch_lbrace. rewrite Ec. cbn [N.eqb Pos.eqb]. rewrite rev_involutive.
+        set (acc1 := acc ++ vt (slice phrase last index)).
+        assert (Hsk : forall k, SG (skipn (S index) phrase) [123%N] k = SG (skipn (S index + k) phrase) (rev (slice phrase index (S index + k))) 0).
+        { intros k. rewrite svar_skip. rewrite skipn_add. f_equal.
+          unfold slice. replace (S index + k - index) with (S k) by lia. rewrite (skipn_nth phrase index Hi). fold c. rewrite Ec.
+          cbn [firstn rev]. reflexivity. }
+        destruct (Nat.ltb_spec (S index) plen) as [H1|H1].
+        + rewrite (skipn_nth phrase (S index) H1). set (d := nth (S index) phrase 0%N).
+          destruct (Nat.ltb_spec (S (S index)) plen) as [H2|H2].
+          * rewrite (skipn_nth phrase (S (S index)) H2). set (c2 := nth (S (S index)) phrase 0%N). cbn [andb].
+            unfold ch_rbrace, ch_zero. destruct (N.eqb_spec c2 125) as [E2|E2].
+            -- destruct (N.leb_spec 48 d) as [Hd|Hd]; cbn [andb].
+               ++ destruct (Nat.ltb_spec (N.to_nat (d - 48)) (length tags)) as [Hk|Hk].
+                  ** destruct (N.ltb_spec (d - 48) (N.of_nat (length outs))) as [_|X]; [|lia].
+                     destruct (nth_error tags (N.to_nat (d - 48))) as [t|] eqn:Et; [|apply nth_error_None in Et; lia].
+                     rewrite (Hsub _ _ Et). cbn [rbind].
+                     rewrite (Hstep (S (S (S index))) ltac:(lia) (S (S (S index)))) by lia.
+                     rewrite slice_self. cbn [rev]. unfold acc1. repeat rewrite <- app_assoc. reflexivity.
+                  ** destruct (N.ltb_spec (d - 48) (N.of_nat (length outs))) as [X|_]; [lia|].
+                     rewrite (Hstep (S (S (S (S index)))) ltac:(lia) index) by lia.
+                     fold d c2 in Hsk. pose proof (Hsk 3) as E3. rewrite (skipn_nth phrase (S index) H1), (skipn_nth phrase (S (S index)) H2) in E3.
+                     fold d c2 in E3. rewrite E3. unfold acc1. rewrite <- app_assoc.
+                     replace (S index + 3) with (S (S (S (S index)))) by lia. reflexivity.
+               ++ rewrite (Hstep (S (S (S (S index)))) ltac:(lia) index) by lia.
+                  pose proof (Hsk 3) as E3. rewrite (skipn_nth phrase (S index) H1), (skipn_nth phrase (S (S index)) H2) in E3.
+                  fold d c2 in E3. rewrite E3. unfold acc1. rewrite <- app_assoc.
+                  replace (S index + 3) with (S (S (S (S index)))) by lia. reflexivity.
+            -- rewrite (Hstep (S (S (S index))) ltac:(lia) index) by lia.
+               pose proof (Hsk 2) as E3. rewrite (skipn_nth phrase (S index) H1), (skipn_nth phrase (S (S index)) H2) in E3.
+               fold d c2 in E3. rewrite E3. unfold acc1. rewrite <- app_assoc.
+               replace (S index + 2) with (S (S (S index))) by lia. reflexivity.
+          * cbn [andb]. rewrite (skipn_all2 phrase (n:=S (S index))) by lia.
+            rewrite (Hstep (S (S (S index))) ltac:(lia) index) by lia.
+            pose proof (Hsk 2) as E3. rewrite (skipn_nth phrase (S index) H1) in E3. fold d in E3. rewrite (skipn_all2 phrase (n:=S (S index))) in E3 by lia.
+            rewrite E3. unfold acc1. rewrite <- app_assoc. replace (S index + 2) with (S (S (S index))) by lia. reflexivity.
+        + rewrite (skipn_all2 phrase (n:=S index)) by lia.
+          rewrite (Hstep (S (S index)) ltac:(lia) index) by lia.
+          pose proof (Hsk 2) as E3. rewrite (skipn_all2 phrase (n:=S index)) in E3 by lia.
+          rewrite E3. unfold acc1. rewrite <- app_assoc.
+          rewrite (sg_end (S (S index)) index) by lia. rewrite (sg_end (S index + 2) index) by lia. reflexivity.
+      - (* any other unit *)
+        cbn [svar_go]. unfold ch_lbrace. destruct (N.eqb_spec c 123) as [X|_]; [contradiction|].
+        rewrite (Hstep (S index) ltac:(lia) last) by lia.
+        rewrite (slice_snoc phrase last index Hl Hi). fold c. rewrite rev_app_distr. reflexivity.
+    Qed.
+  End Phrase.
+
+  (* ---- {svar:path, tag, ...} ---- *)
+  Lemma fresh_none : forall env ctx items p, fresh (map fst env) p = true -> R items env ctx -> find_binding ctx (print_path p) = None.
+  Proof.
+    intros env ctx items p Hf HR. induction HR as [|nm li env b ctx Hn Hi HR IH]; [reflexivity|].
+    cbn [map fst fresh forallb] in Hf. apply andb_prop in Hf. destruct Hf as [H1 H2].
+    cbn [find_binding]. rewrite Hn. destruct nm as [|c nm']; [apply IH; exact H2|].
+    apply negb_true_iff in H1. rewrite H1. apply IH. exact H2.
+  Qed.
+  Lemma resolve_fresh : forall ctx p, find_binding ctx (print_path p) = None -> fst (resolve root ctx p) = fst (resolve root [] p).
+  Proof. intros ctx p H. unfold resolve. rewrite H. reflexivity. Qed.
+
+  Lemma rtag_var_inv : forall v o items x y, rtag (PVar v) o items = ROk (x, y, items) ->
+    render_var jv get_key (jv_text auto w) (var_text_cfg auto w) content root v o items = ROk (x, y).
+  Proof.
+    intros v o items x y H. cbn [render_tag] in H.
+    destruct (render_var jv get_key (jv_text auto w) (var_text_cfg auto w) content root v o items) as [[a b]|e]; [|discriminate H].
+    cbn [rbind fst snd] in H. injection H as -> ->. reflexivity.
+  Qed.
+  Lemma rtag_raw_inv : forall v o items x y, rtag (PRaw v) o items = ROk (x, y, items) ->
+    render_raw jv get_key (jv_text auto w) content root v o items = ROk (x, y).
+  Proof.
+    intros v o items x y H. cbn [render_tag] in H.
+    destruct (render_raw jv get_key (jv_text auto w) content root v o items) as [[a b]|e]; [|discriminate H].
+    cbn [rbind fst snd] in H. injection H as -> ->. reflexivity.
+  Qed.
+  Lemma rtag_math_inv : forall o e ex off items x y, rtag (PMath o e ex) off items = ROk (x, y, items) ->
+    render_math jv (jv_math content root) content o e ex off items = ROk (x, y).
+  Proof.
+    intros o e ex off items x y H. cbn [render_tag] in H.
+    destruct (render_math jv (jv_math content root) content o e ex off items) as [[a b]|er]; [|discriminate H].
+    cbn [rbind fst snd] in H. injection H as -> ->. reflexivity.
+  Qed.
+
+  Lemma subs_render : forall env ctx items d subs prs post',
+    content = prs ++ print_subs subs ++ post' -> forallb sub_ok subs = true ->
+    forallb (wf_node1 (map fst env) d) subs = true -> R items env ctx ->
+    length (build_subs env d (length prs) subs) = length subs /\
+    forall k t, nth_error (build_subs env d (length prs) subs) k = Some t ->
+      rsubf t items = ROk (nth k (map (leaf_out auto w root ctx) subs) []).
+  Proof.
+    intros env ctx items d subs; induction subs as [|x r IH]; intros prs post' Hc Hs Hw HR.
+    - split; [reflexivity|]. intros k t H. destruct k; discriminate H.
+    - cbn [forallb] in Hs, Hw. apply andb_prop in Hs. destruct Hs as [Hsx Hsr]. apply andb_prop in Hw. destruct Hw as [Hwx Hwr].
+      cbn [print_subs] in Hc. rewrite build_subs_cons.
+      assert (Hc' : content = (prs ++ s_comma_sp ++ print_node x) ++ print_subs r ++ post') by (rewrite Hc; assoc).
+      assert (Hl' : length (prs ++ s_comma_sp ++ print_node x) = length prs + 2 + length (print_node x))
+        by (repeat rewrite app_length; cbn [length s_comma_sp]; lia).
+      destruct (IH (prs ++ s_comma_sp ++ print_node x) post' Hc' Hsr Hwr HR) as [IHl IHk]. rewrite Hl' in IHl, IHk.
+      assert (Hcx : content = (prs ++ s_comma_sp) ++ [] ++ print_node x ++ (print_subs r ++ post')) by (rewrite Hc; assoc).
+      assert (Hlx : length (prs ++ s_comma_sp) = length prs + 2) by (rewrite app_length; reflexivity).
+      assert (Hx : exists tx, build env d (length prs + 2) x = [tx] /\ rsubf tx items = ROk (leaf_out auto w root ctx x)).
+      { destruct x as [s|p|p|e|p sb|c t f|c b m|st v g so b]; try discriminate Hsx.
+        - cbn [wf_node1] in Hwx. apply andb_prop in Hwx. destruct Hwx as [Hwp Hu].
+          eexists. split; [reflexivity|]. cbn [render_sub]. unfold vt_of at 1. cbn [v_off]. unfold tpp_VariablePrefixLength.
+          rewrite rsub_eq by lia. cbn [rbind]. replace (length prs + 2 + 5 - 5) with (length prs + 2) by lia.
+          pose proof (var_node env ctx items p (prs ++ s_comma_sp) [] _ Hcx Hwp Hu HR) as Hv.
+          rewrite Hlx in Hv. cbn [length app] in Hv. rewrite Nat.add_0_r in Hv.
+          rewrite (rtag_var_inv _ _ _ _ _ Hv). reflexivity.
+        - cbn [wf_node1] in Hwx. apply andb_prop in Hwx. destruct Hwx as [Hwp Hu].
+          eexists. split; [reflexivity|]. cbn [render_sub]. unfold vt_of at 1. cbn [v_off]. unfold tpp_RawVariablePrefixLength.
+          rewrite rsub_eq by lia. cbn [rbind]. replace (length prs + 2 + 5 - 5) with (length prs + 2) by lia.
+          pose proof (raw_node env ctx items p (prs ++ s_comma_sp) [] _ Hcx Hwp Hu HR) as Hv.
+          rewrite Hlx in Hv. cbn [length app] in Hv. rewrite Nat.add_0_r in Hv.
+          rewrite (rtag_raw_inv _ _ _ _ _ Hv). reflexivity.
+        - cbn [wf_node1] in Hwx.
+          eexists. split; [reflexivity|]. cbn [render_sub].
+          pose proof (math_node env ctx items e (prs ++ s_comma_sp) [] _ Hcx Hwx HR) as Hv.
+          rewrite Hlx in Hv. cbn [length app] in Hv. rewrite Nat.add_0_r in Hv.
+          rewrite (rtag_math_inv _ _ _ _ _ _ _ Hv). reflexivity. }
+      destruct Hx as (tx & Hb & Hr). rewrite Hb. cbn [app length map]. split; [rewrite IHl; reflexivity|].
+      intros k t Hk. destruct k as [|k]; [cbn in Hk; injection Hk as <-; exact Hr|].
+      cbn [nth_error nth] in *. apply IHk. exact Hk.
+  Qed.
+
+  Lemma svar_node : forall depth env ctx items p subs pre lit post,
+    content = pre ++ lit ++ print_node (TSVar p subs) ++ post ->
+    wf_node1 (map fst env) depth (TSVar p subs) = true -> R items env ctx ->
+    rtag (PSVar (length pre + length lit) (length pre + length lit + length (print_node (TSVar p subs)))
+                (mkV (length pre + length lit + 6) (N.of_nat (length (print_path p))) 0 0)
+                (build_subs env (S depth) (length pre + length lit + 6 + length (print_path p)) subs)) (length pre) items =
+    ROk (lit ++ ENode ctx (TSVar p subs), length pre + length lit + length (print_node (TSVar p subs)), items).
+  Proof.
+    intros depth env ctx items p subs pre lit post Hc Hwf HR.
+    rewrite wf_TSVar in Hwf. apply andb_prop in Hwf. destruct Hwf as [Hwf Hws]. apply andb_prop in Hwf. destruct Hwf as [Hwf Hso].
+    apply andb_prop in Hwf. destruct Hwf as [Hwf Hne]. apply andb_prop in Hwf. destruct Hwf as [Hwf Hfr]. apply andb_prop in Hwf. destruct Hwf as [Hwp H44].
+    assert (Hlen : length content = length pre + length lit + length (print_node (TSVar p subs)) + length post)
+      by (rewrite Hc; repeat rewrite app_length; lia).
+    set (tot := length (print_node (TSVar p subs))) in *.
+    pose proof Hc as Hc0. rewrite print_node_TSVar in Hc.
+    cbn [render_tag].
+    (* the value *)
+    assert (Hlook := lookup [] [] items p (pre ++ lit ++ s_svar_open) (print_subs subs ++ s_close ++ post)).
+    repeat rewrite app_length in Hlook. cbn [length s_svar_open] in Hlook.
+    replace (length pre + (length lit + 6)) with (length pre + length lit + 6) in Hlook by lia.
+    change (vt_of [] (length pre + length lit + 6) p) with (mkV (length pre + length lit + 6) (N.of_nat (length (print_path p))) 0 0) in Hlook.
+    rewrite Hlook; [| |exact Hwp|unfold uniq; destruct (snd p); reflexivity|constructor].
+    2:{ rewrite Hc. assoc. }
+    cbn [rbind]. rewrite wslice_eq by lia. cbn [rbind].
+    rewrite (sub_lit content pre lit (print_node (TSVar p subs) ++ post)) by (try exact Hc0; reflexivity).
+    rewrite <- (resolve_fresh ctx p (fresh_none env ctx items p Hfr HR)).
+    rewrite expand_node_TSVar.
+    destruct subs as [|x0 r0]; [discriminate Hne|]. cbv iota. set (subs := x0 :: r0) in *.
+    destruct (match fst (resolve root ctx p) with Some v => char_and_length v | None => None end) as [phrase|].
+    - assert (Hcs : content = (pre ++ lit ++ s_svar_open ++ print_path p) ++ print_subs subs ++ (s_close ++ post)) by (rewrite Hc; assoc).
+      destruct (subs_render env ctx items (S depth) subs _ _ Hcs Hso Hws HR) as [Hl Hk].
+      replace (length (pre ++ lit ++ s_svar_open ++ print_path p)) with (length pre + length lit + 6 + length (print_path p)) in Hl, Hk
+        by (repeat rewrite app_length; cbn [length s_svar_open]; lia).
+      rewrite (pscan_eq phrase _ items (map (leaf_out auto w root ctx) subs)) with (n := length phrase); [| |exact Hk|lia|lia|lia].
+      + cbn [rbind app skipn]. rewrite slice_self. cbn [rev]. reflexivity.
+      + rewrite map_length. symmetry. exact Hl.
+    - rewrite wslice_eq by lia. cbn [rbind].
+      rewrite (sub_node content pre lit (print_node (TSVar p subs)) post) by (try exact Hc0; reflexivity). reflexivity.
+  Qed.
+
   (* ---- nodes and lists ---- *)
   Lemma list_sem : forall l, Forall node_sem l ->
     forall depth env ctx items pre lit post,
@@ -756,6 +1017,8 @@ Section Sem.
     destruct x; try discriminate Hx; reflexivity.
   Qed.
 
+
+
   Lemma wf_path_len : forall p, wf_path p = true -> 1 <= length (print_path p) <= 255.
   Proof.
     intros [nm idx] H. unfold wf_path in H. cbn [fst snd] in H.
@@ -782,9 +1045,114 @@ Section Sem.
       eexists _, items. split; [reflexivity|]. split; [|apply agree_refl].
       replace (length pre + length lit + length (print_node (TMath e))) with (length pre + length lit + length (print_node (TMath e))) by reflexivity.
       apply (math_node env ctx items e pre lit post Hc Hwf HR).
-    - intros p subs depth env ctx items pre lit post Hwf. discriminate Hwf.
-    - intros c t fl _ _ depth env ctx items pre lit post Hwf. discriminate Hwf.
-    - intros c t _ depth env ctx items pre lit post Hwf. discriminate Hwf.
+    - (* super variable *)
+      intros p subs depth env ctx items pre lit post Hwf _ Hc HR He.
+      rewrite build_TSVar. eexists _, items. split; [reflexivity|]. split; [|apply agree_refl].
+      apply (svar_node depth env ctx items p subs pre lit post Hc Hwf HR).
+    - (* inline if with a false value *)
+      intros c t fl Ht Hfl depth env ctx items pre lit post Hwf _ Hc HR He.
+      rewrite wf_TIIf in Hwf. apply andb_prop in Hwf. destruct Hwf as [Hwf Hnt]. apply andb_prop in Hwf. destruct Hwf as [Hwf H16].
+      apply andb_prop in Hwf. destruct Hwf as [Hwf Hf]. apply andb_prop in Hf. destruct Hf as [Hifl Hwfl].
+      apply andb_prop in Hwf. destruct Hwf as [Hwf Hwt]. apply andb_prop in Hwf. destruct Hwf as [Hwc Hit].
+      rewrite build_TIIf_some. cbv zeta. eexists _.
+      set (off := length pre + length lit). set (pe := print_expr c). set (pt := print_nodes t). set (pf := print_nodes fl).
+      set (ts := off + 10 + length pe + 8). set (fs := ts + length pt + 9).
+      set (A := build_list env (S depth) ts t). set (B := build_list env (S depth) fs fl).
+      set (tot := length (print_node (TIIf c t (Some fl)))).
+      assert (Htot : tot = 10 + length pe + 8 + length pt + 9 + length pf + 2)
+        by (unfold tot; rewrite print_node_TIIf; repeat rewrite app_length; cbn [length s_iif_open s_true_attr s_false_attr s_iif_close]; fold pe pt pf; lia).
+      rewrite print_node_TIIf in Hc. fold pe pt pf in Hc.
+      assert (Hlen : length content = off + tot + length post)
+        by (rewrite Hc, Htot; unfold off; repeat rewrite app_length; cbn [length s_iif_open s_true_attr s_false_attr s_iif_close]; lia).
+      set (ir := mkI off (N.of_nat tot) (N.of_nat (ts - off)) (N.of_nat (length pt)) (N.of_nat (fs - off)) (N.of_nat (length pf)) 0 (N.of_nat (ntags t))).
+      cut (exists items', rtag (PIIf ir (qexpr_of env (off + 10) c) (A ++ B)) (length pre) items
+             = ROk (lit ++ ENode ctx (TIIf c t (Some fl)), off + tot, items') /\ agree depth items items').
+      { intros (i & E & Ha). exists i. split; [reflexivity|]. split; assumption. }
+      rewrite rtag_iif. unfold ir. cbn [i_off i_len i_toff i_tlen i_foff i_flen i_tid i_fid]. rewrite !Nat2N.id.
+      rewrite wslice_eq by (unfold off in *; lia). cbn [rbind].
+      rewrite (sub_lit content pre lit ((s_iif_open ++ pe ++ s_true_attr ++ pt ++ (s_false_attr ++ pf) ++ s_iif_close) ++ post)) by (try exact Hc; reflexivity).
+      cbv zeta.
+      rewrite (qexpr_of_match _ env (off + 10) c None (fun ex => jv_cond content root off ex items)).
+      rewrite jv_cond_eq.
+      assert (Hq := q_top_expr env ctx items c (pre ++ lit ++ s_iif_open) (s_true_attr ++ pt ++ (s_false_attr ++ pf) ++ s_iif_close ++ post)).
+      repeat rewrite app_length in Hq. cbn [length s_iif_open] in Hq.
+      replace (length pre + (length lit + 10)) with (off + 10) in Hq by (unfold off; lia).
+      rewrite Hq; [| |exact Hwc|exact HR].
+      2:{ rewrite Hc. fold pe. assoc. }
+      rewrite expand_node_TIIf. unfold truth.
+      assert (HlA : length A = ntags t) by (apply ntags_build; exact Hit).
+      assert (HlB : length B = ntags fl) by (apply ntags_build; exact Hifl).
+      set (prt := pre ++ lit ++ s_iif_open ++ pe ++ s_true_attr).
+      assert (Hlt : length prt = ts) by (unfold prt, ts, off; repeat rewrite app_length; cbn [length s_iif_open s_true_attr]; lia).
+      set (prf := prt ++ pt ++ s_false_attr).
+      assert (Hlf : length prf = fs) by (unfold prf, fs; repeat rewrite app_length; rewrite Hlt; cbn [length s_false_attr]; lia).
+      destruct (eval_expr root ctx c) as [z|]; [|exists items; split; [rewrite app_nil_r; reflexivity|apply agree_refl]].
+      destruct (z >? 0)%Z.
+      + destruct (N.ltb_spec (N.of_nat (ts - off)) (N.of_nat (fs - off))) as [_|X]; [|unfold fs in X; lia].
+        unfold check_id. rewrite Nat2N.id. rewrite app_length, HlA. destruct (Nat.leb_spec (ntags t) (ntags t + length B)) as [_|X]; [|lia].
+        cbn [rbind]. rewrite <- HlA. rewrite rr_take_all.
+        assert (Hcb : content = prt ++ [] ++ pt ++ ((s_false_attr ++ pf) ++ s_iif_close ++ post)) by (rewrite Hc; unfold prt; assoc).
+        destruct (list_sem t Ht (S depth) env ctx items prt [] _ Hwt Hcb HR (env_ok_S _ _ He)) as (i' & E & Ha).
+        cbn [length app] in E. rewrite Nat.add_0_r in E. rewrite Hlt in E. fold pt in E. fold A in E.
+        replace (off + (ts - off)) with ts by (unfold ts; lia). rewrite E. cbn [rbind fst snd].
+        exists i'. split; [reflexivity|apply (agree_le depth (S depth)); [lia|exact Ha]].
+      + destruct (N.ltb_spec (N.of_nat (fs - off)) (N.of_nat (ts - off))) as [X|_]; [unfold fs in X; lia|].
+        unfold check_id. rewrite Nat2N.id. rewrite app_length, HlA. destruct (Nat.leb_spec (ntags t) (ntags t + length B)) as [_|X]; [|lia].
+        cbn [rbind]. pose proof (rr_skip A B (ntags t + length B) (off + (fs - off)) (off + (fs - off) + length pf) items) as Hsk.
+        rewrite HlA in Hsk. rewrite Hsk. clear Hsk. rewrite rr_all by lia.
+        assert (Hcb : content = prf ++ [] ++ pf ++ (s_iif_close ++ post)) by (rewrite Hc; unfold prf, prt; assoc).
+        destruct (list_sem fl Hfl (S depth) env ctx items prf [] _ Hwfl Hcb HR (env_ok_S _ _ He)) as (i' & E & Ha).
+        cbn [length app] in E. rewrite Nat.add_0_r in E. rewrite Hlf in E. fold pf in E. fold B in E.
+        replace (off + (fs - off)) with fs by (unfold fs, ts; lia). rewrite E. cbn [rbind fst snd].
+        exists i'. split; [reflexivity|apply (agree_le depth (S depth)); [lia|exact Ha]].
+    - (* inline if without a false value *)
+      intros c t Ht depth env ctx items pre lit post Hwf _ Hc HR He.
+      rewrite wf_TIIf in Hwf. apply andb_prop in Hwf. destruct Hwf as [Hwf Hnt]. apply andb_prop in Hwf. destruct Hwf as [Hwf H16].
+      apply andb_prop in Hwf. destruct Hwf as [Hwf _].
+      apply andb_prop in Hwf. destruct Hwf as [Hwf Hwt]. apply andb_prop in Hwf. destruct Hwf as [Hwc Hit].
+      rewrite build_TIIf_none. cbv zeta. eexists _.
+      set (off := length pre + length lit). set (pe := print_expr c). set (pt := print_nodes t).
+      set (ts := off + 10 + length pe + 8).
+      set (A := build_list env (S depth) ts t).
+      set (tot := length (print_node (TIIf c t None))).
+      assert (Htot : tot = 10 + length pe + 8 + length pt + 2)
+        by (unfold tot; rewrite print_node_TIIf; repeat rewrite app_length; cbn [length s_iif_open s_true_attr s_iif_close]; fold pe pt; lia).
+      rewrite print_node_TIIf in Hc. fold pe pt in Hc.
+      assert (Hlen : length content = off + tot + length post)
+        by (rewrite Hc, Htot; unfold off; repeat rewrite app_length; cbn [length s_iif_open s_true_attr s_iif_close]; lia).
+      set (ir := mkI off (N.of_nat tot) (N.of_nat (ts - off)) (N.of_nat (length pt)) 0 0 0 0).
+      cut (exists items', rtag (PIIf ir (qexpr_of env (off + 10) c) A) (length pre) items
+             = ROk (lit ++ ENode ctx (TIIf c t None), off + tot, items') /\ agree depth items items').
+      { intros (i & E & Ha). exists i. split; [reflexivity|]. split; assumption. }
+      rewrite rtag_iif. unfold ir. cbn [i_off i_len i_toff i_tlen i_foff i_flen i_tid i_fid]. rewrite !Nat2N.id.
+      rewrite wslice_eq by (unfold off in *; lia). cbn [rbind].
+      rewrite (sub_lit content pre lit ((s_iif_open ++ pe ++ s_true_attr ++ pt ++ [] ++ s_iif_close) ++ post)) by (try exact Hc; reflexivity).
+      cbv zeta.
+      rewrite (qexpr_of_match _ env (off + 10) c None (fun ex => jv_cond content root off ex items)).
+      rewrite jv_cond_eq.
+      assert (Hq := q_top_expr env ctx items c (pre ++ lit ++ s_iif_open) (s_true_attr ++ pt ++ [] ++ s_iif_close ++ post)).
+      repeat rewrite app_length in Hq. cbn [length s_iif_open] in Hq.
+      replace (length pre + (length lit + 10)) with (off + 10) in Hq by (unfold off; lia).
+      rewrite Hq; [| |exact Hwc|exact HR].
+      2:{ rewrite Hc. fold pe. assoc. }
+      rewrite expand_node_TIIf. unfold truth.
+      set (prt := pre ++ lit ++ s_iif_open ++ pe ++ s_true_attr).
+      assert (Hlt : length prt = ts) by (unfold prt, ts, off; repeat rewrite app_length; cbn [length s_iif_open s_true_attr]; lia).
+      destruct (eval_expr root ctx c) as [z|]; [|exists items; split; [rewrite app_nil_r; reflexivity|apply agree_refl]].
+      destruct (z >? 0)%Z.
+      + destruct (N.ltb_spec (N.of_nat (ts - off)) 0) as [X|_]; [lia|].
+        unfold check_id. cbn [N.to_nat]. cbn [Nat.leb rbind]. rewrite rr_all by lia.
+        assert (Hcb : content = prt ++ [] ++ pt ++ ([] ++ s_iif_close ++ post)) by (rewrite Hc; unfold prt; assoc).
+        destruct (list_sem t Ht (S depth) env ctx items prt [] _ Hwt Hcb HR (env_ok_S _ _ He)) as (i' & E & Ha).
+        cbn [length app] in E. rewrite Nat.add_0_r in E. rewrite Hlt in E. fold pt in E. fold A in E.
+        replace (off + (ts - off)) with ts by (unfold ts; lia). cbn [app] in E. rewrite E. cbn [rbind fst snd].
+        exists i'. split; [reflexivity|apply (agree_le depth (S depth)); [lia|exact Ha]].
+      + destruct (N.ltb_spec 0 (N.of_nat (ts - off))) as [_|X]; [|unfold ts in X; lia].
+        unfold check_id. cbn [N.to_nat]. cbn [Nat.leb rbind].
+        assert (Hr0 : rrange A 0 0 (off + 0) (off + 0 + 0) items = ROk ([], items)).
+        { destruct A; cbn [render_range]; rewrite wslice_eq by (unfold off in *; lia); cbn [rbind];
+            rewrite !Nat.add_0_r; unfold slice; rewrite Nat.sub_diag; reflexivity. }
+        rewrite Hr0. cbn [rbind fst snd]. exists items. split; [reflexivity|apply agree_refl].
     - (* if *)
       intros c body more Hb Hm depth env ctx items pre lit post Hwf _ Hc HR He.
       rewrite wf_TIf in Hwf. apply andb_prop in Hwf. destruct Hwf as [Hwf Hwm]. apply andb_prop in Hwf. destruct Hwf as [Hwc Hwb].
